@@ -93,6 +93,7 @@ pub const REQUIRED: &[&str] = &[
     "value: container of length >= 255",
     "value: nesting depth >= 4",
     "value: multi-byte UTF-8",
+    "value: VecDeque with a wrapped ring buffer (as_slices().1 non-empty)",
     "wrapper: pinned mode differs from outer mode",
     "serialize-only: Rc / & / &mut / &[T]",
     "validation reaches container elements",
@@ -339,6 +340,7 @@ fn value_classes(rep: &mut Report, e: &Enc) {
         }
     }
     rep.class_if(e.max_depth >= 4, "value: nesting depth >= 4");
+    rep.class_if(e.wrapped_deque, "value: VecDeque with a wrapped ring buffer (as_slices().1 non-empty)");
 }
 
 #[allow(clippy::too_many_arguments)]
